@@ -98,7 +98,7 @@ class _PooledTransport:
     pool-specific attributes (``shm``, ``_stream_opened``).
     """
 
-    __slots__ = ("_inner", "_pool", "_returned", "_shm", "_stream_sessions", "_streams_started")
+    __slots__ = ("_call_in_flight", "_inner", "_pool", "_returned", "_shm", "_stream_sessions", "_streams_started")
 
     def __init__(self, inner: SubprocessTransport, pool: WorkerPool, shm: ShmSegment | None = None) -> None:
         """Initialize wrapping *inner* transport, owned by *pool*."""
@@ -112,6 +112,10 @@ class _PooledTransport:
         # after an earlier stream had been closed cleanly.
         self._streams_started = 0
         self._stream_sessions: list[StreamSession] = []
+        # Set by the client proxy around a unary call; still set on close means the
+        # call was cut short (a callback raised, KeyboardInterrupt, ...) and part of
+        # its response may be unread.
+        self._call_in_flight = False
 
     @property
     def _stream_opened(self) -> bool:
@@ -161,10 +165,14 @@ class _PooledTransport:
             return
         self._returned = True
         self._shm = None
-        # A stream is "abandoned" if it was opened but not cleanly closed: a
-        # request that never produced a session, or any session left open.
-        stream_abandoned = self._streams_started != len(self._stream_sessions) or any(
-            not session._closed for session in self._stream_sessions
+        # The connection is off a message boundary if a stream request never
+        # produced a session, if any session's output was not read to its end
+        # (left open, or "closed" by an error path that could not drain it), or if
+        # a unary call never completed.
+        stream_abandoned = (
+            self._streams_started != len(self._stream_sessions)
+            or any(not session._drained for session in self._stream_sessions)
+            or self._call_in_flight
         )
         self._last_stream_session = None
         try:
